@@ -508,8 +508,12 @@ async def _fetch_with_probe(
         )
 
     # Decide path
+    # ``content_length > 0``: a probe that announces an empty object leaves no
+    # range to request, hence nothing to cross-check the announcement against;
+    # a plain GET reads whatever the origin actually holds.
     use_parallel = (
         content_length is not None
+        and content_length > 0
         and "bytes" in accept_ranges.lower()
         and content_length >= config.parallel_threshold_bytes
     )
@@ -700,6 +704,36 @@ def _compute_ranges(content_length: int, chunk_size: int) -> list[tuple[int, int
     return ranges
 
 
+def _check_content_range(content_range: str, start: int, end: int, total_size: int | None) -> str | None:
+    """Compare a 206's ``Content-Range`` with the range that was requested.
+
+    The probe's length decides how many ranges are requested, so an origin
+    whose object is larger than the probe said (a stale or lying probe, or
+    an object replaced mid-download) would otherwise yield a silently
+    truncated result assembled from perfectly valid ranges.
+
+    Args:
+        content_range: The header value (may be empty).
+        start: First requested byte.
+        end: Last requested byte (inclusive).
+        total_size: Object size learned from the probe, if any.
+
+    Returns:
+        A description of the mismatch, or ``None`` when the header is absent,
+        unparseable or consistent.
+
+    """
+    match = re.match(r"^\s*bytes\s+(\d+)-(\d+)/(\d+|\*)\s*$", content_range)
+    if match is None:
+        return None
+    got_start, got_end, got_total = int(match.group(1)), int(match.group(2)), match.group(3)
+    if (got_start, got_end) != (start, end):
+        return f"Content-Range covers bytes {got_start}-{got_end}"
+    if total_size is not None and got_total != "*" and int(got_total) != total_size:
+        return f"Content-Range reports an object of {got_total} bytes, the probe reported {total_size}"
+    return None
+
+
 async def _fetch_one_chunk(
     client: aiohttp.ClientSession,
     url: str,
@@ -708,6 +742,8 @@ async def _fetch_one_chunk(
     semaphore: asyncio.Semaphore,
     config: FetchConfig,
     url_validator: Callable[[str], None] | None,
+    *,
+    total_size: int | None = None,
 ) -> bytes:
     """Fetch a single byte range.
 
@@ -725,6 +761,9 @@ async def _fetch_one_chunk(
                 raise RuntimeError(
                     f"Expected HTTP 206 for Range request, got {resp.status} (bytes={start}-{end} of {redact_url(url)})"
                 )
+            mismatch = _check_content_range(resp.headers.get("Content-Range", ""), start, end, total_size)
+            if mismatch is not None:
+                raise RuntimeError(f"Range response mismatch: {mismatch} (bytes={start}-{end} of {redact_url(url)})")
             try:
                 return await _read_range_response_body(resp, expected_size, config)
             except RuntimeError as exc:
@@ -755,7 +794,9 @@ async def _fetch_chunks_with_hedging(
         t0 = time.monotonic()
 
         async def _timed_fetch() -> tuple[int, bytes]:
-            data = await _fetch_one_chunk(client, url, start, end, semaphore, config, url_validator)
+            data = await _fetch_one_chunk(
+                client, url, start, end, semaphore, config, url_validator, total_size=content_length
+            )
             elapsed = time.monotonic() - t0
             completion_times.append(elapsed)
             return idx, data
